@@ -69,6 +69,8 @@ fn joint_names(naming: &str, tag: &str) -> [String; 6] {
         "literal-prefix" => format!("leftJOINT_{}!", i + 1),            // the form used in the crate's own unit test
         // a prefix with capital letters whose lower-case forms are longer in UTF-8 (U+0130: two bytes, three in lower case)
         "unicode-prefix" => format!("\u{0130}\u{0130}_Arm_joint_{}", i + 1),
+        // every joint of the description decorated in its own way (each name is simplified on its own)
+        "mixed" => match i { 0 => "joint1".to_string(), 1 => "${prefix}JOINT_2".to_string(), 2 => "joint_3".to_string(), 3 => "${prefix}joint_a4".to_string(), 4 => "left_arm_joint_a5".to_string(), _ => "leftJOINT_6!".to_string() },
         _ => format!("{}_axis_{}", tag, i),
     })
 }
